@@ -114,6 +114,28 @@ pub enum FixU<'a> {
 }
 pub const FIXU_NAMES: [&str; 12] = ["向上", "向下", "€a", "₭b", "𐍈x", "𐍉y", "𐎈z", "ña", "òb", "かな", "きの", "アイ"];
 
+/// Short options whose character comes from a non-ASCII field identifier (generated) or is given explicitly,
+/// one per UTF-8 length.
+#[derive(Debug, Command)]
+pub enum FixN {
+    #[command(name = "n")]
+    N {
+        #[arg(short)]
+        число: bool,
+        #[arg(short)]
+        über: bool,
+        #[arg(short)]
+        語: Option<u8>,
+        #[arg(short = '𐍈')]
+        goth: bool,
+        #[arg(short)]
+        plain: bool,
+    },
+}
+pub fn parse_fixn<'a>(raw: RawCommand<'a>) -> Result<String, embedded_cli::service::ParseError<'a>> {
+    FixN::parse(raw).map(|c| format!("{:?}", c))
+}
+
 #[derive(Debug, CommandGroup)]
 pub enum FixG<'a> {
     A(FixA<'a>),
